@@ -16,9 +16,9 @@ pub struct Case {
     pub kind: String,
 }
 
-pub const PIECES: [&str; 27] = [
+pub const PIECES: [&str; 29] = [
     "a", "b", "c", "d", "-", "1", "2", ".", "*", "?", "[0-9]", ">=", "<", ">", "", "a-", "[a,b]", "[", "]", "[!a-c]", "é", "<=",
-    "\\", "-[0-9]*", "+", "_", "٣",
+    "\\", "-[0-9]*", "+", "_", "٣", "\0", "ü",
 ];
 
 #[derive(Clone, Debug)]
